@@ -42,7 +42,8 @@ Public API (keep it small):
     StartFn(offset, first)   a select_start_nodes_fn(td, env, num_starts) with known feasible starts (records its calls)
     FAMILY / family(key)     zoo variants (polynet_matnet, matnet_ctx, l2d_stepwise, mvmoe_k1 / mvmoe_kall / mvmoe_enc) share
                              the special rules of their family in the checks; `nar` = NonAutoregressivePolicy on the harness
-                             stub encoder StubHeatmapEncoder
+                             stub encoder StubHeatmapEncoder; `nar_coarse` (not in ZOO, drawn by C13) = the same policy class
+                             on vf.c13_heat.CoarseHeatmapEncoder (heat-map on a coarse log grid, opts = its parameters)
 
 Spread init (DESIGN §2.4): freshly initialised policies emit nearly uniform distributions (exact ties); x1.25..2.5 on
 the weight matrices gives mostly decisive (top-2 gap > 1e-4) and non-saturated steps; measured by C11 (decisive
@@ -127,6 +128,9 @@ INFO = {
     # NonAutoregressiveDecoder cannot decode a multisample request (the first step's logits keep the un-expanded batch:
     # IndexError on the pinned tree): greedy / sampling / multistart / beam / evaluate only
     "nar": dict(batchnorm=False, constructive=True, multistart=True, no_multisample=True),
+    # same policy class on the coarse-grid stub encoder of vf/c13_heat.py (C13 only; not in ZOO: TSP at 3-36 nodes, opts =
+    # heat-map parameters kind / g / levels / c / d / split)
+    "nar_coarse": dict(batchnorm=False, constructive=True, multistart=True, no_multisample=True),
 }
 for _k, _f in FAMILY.items():
     INFO[_k] = dict(INFO[_f])
@@ -556,7 +560,7 @@ def _construct(key, env_name, embed_dim, norm, env=None, opts=None):
     heads = 4
     ff = 2 * embed_dim
     okw = {}
-    if opts and key not in ("mdam", "ptrnet"):
+    if opts and key not in ("mdam", "ptrnet", "nar_coarse"):
         if key not in OPT_KEYS:
             raise KeyError(f"constructor switches are not defined for zoo key {key}")
         okw = _am_kwargs(opts)
@@ -641,6 +645,12 @@ def _construct(key, env_name, embed_dim, norm, env=None, opts=None):
     if key == "nar":
         from rl4co.models.common.constructive.nonautoregressive import NonAutoregressivePolicy
         return NonAutoregressivePolicy(StubHeatmapEncoder(embed_dim), env_name=env_name)
+    if key == "nar_coarse":
+        # heat-map on a coarse log scale (accumulated beam scores tens of nats apart, numerically deterministic rows, exact
+        # ties): vf/c13_heat.py; opts = {"kind": "two_speed" | "quant", "g", "levels", "c", "d", "split"}
+        from rl4co.models.common.constructive.nonautoregressive import NonAutoregressivePolicy
+        from .c13_heat import CoarseHeatmapEncoder
+        return NonAutoregressivePolicy(CoarseHeatmapEncoder(embed_dim, opts), env_name=env_name)
     raise KeyError(key)
 
 
